@@ -144,6 +144,14 @@ func validateRange(e *Expression) (err error) {
 		return errors.New("RANGE validation: range boundary must have a maximum")
 	}
 
+	if !isLiteralExpr(boundary.Min) {
+		return errors.New("RANGE validation: range minimum must be a literal")
+	}
+
+	if !isLiteralExpr(boundary.Max) {
+		return errors.New("RANGE validation: range maximum must be a literal")
+	}
+
 	return nil
 }
 
